@@ -111,8 +111,12 @@ impl ISocketConnection for ZmtpSmartConnection {
         Err(ZmqError::ResourceLimitReached)
       }
       Err(fibre::TrySendError::Full(returned_msgs)) => {
-        let timeout_duration = self.sndtimeo.unwrap_or(Duration::from_secs(30));
-        match tokio::time::timeout(timeout_duration, self.egress_tx.send(returned_msgs)).await {
+        let send_fut = self.egress_tx.send(returned_msgs);
+        let sent = match self.sndtimeo {
+          None => Ok(send_fut.await), // SNDTIMEO = -1: wait until there is room.
+          Some(timeout_duration) => tokio::time::timeout(timeout_duration, send_fut).await,
+        };
+        match sent {
           Ok(Ok(())) => {
             self.signal_worker();
             Ok(())
@@ -139,8 +143,12 @@ impl ISocketConnection for ZmtpSmartConnection {
         // `send()` consumes the batch even when it does not complete; keep a (ref-counted)
         // copy so that the refused message can be handed back to the caller.
         let refused = returned.clone();
-        let timeout_duration = self.sndtimeo.unwrap_or(Duration::from_secs(30));
-        match tokio::time::timeout(timeout_duration, self.egress_tx.send(returned)).await {
+        let send_fut = self.egress_tx.send(returned);
+        let sent = match self.sndtimeo {
+          None => Ok(send_fut.await), // SNDTIMEO = -1: wait until there is room.
+          Some(timeout_duration) => tokio::time::timeout(timeout_duration, send_fut).await,
+        };
+        match sent {
           Ok(Ok(())) => {
             self.signal_worker();
             Ok(())
